@@ -136,6 +136,9 @@ reg = {
         "rootins": {"overlay": "units/rootins.ovl", "canaries": ["canary_rootins"],
                     "helpers": ["get_page_number", "get_page", "new", "num_pairs", "build", "push_child", "push_key", "as_ref", "len", "memory",
                                 "offset_of_first_value", "push", "push_sep", "insert_helper", "as_bytes", "fixed_width"]},
+        # insert beside a single huge pair: leaf order, checksums, separator bounds
+        "bigpair": {"overlay": "units/bigpair.ovl", "canaries": ["canary_bigpair"],
+                    "helpers": ["len", "into_owned", "branch_separator", "key", "new", "entry", "last_entry", "offset_of_first_value", "get_page_number", "memory", "push", "build", "fixed_width"]},
         "types_sep": {"overlay": "units/types_sep.ovl", "canaries": ["canary_types_sep"], "helpers": ["common_prefix_len"]},
         # the page-level checksum walk over an abstract page store
         "merkle": {"overlay": "units/merkle.ovl", "canaries": ["canary_merkle"],
@@ -263,11 +266,12 @@ P["C10"] = {
     "verus": [{"unit": "merkle", "functions": ["RawBtree::verify_checksum", "RawBtree::verify_checksum_helper"]},
               {"unit": "cow", "functions": ["MutateHelper::replace_branch_child", "MutateHelper::finalize_branch_builder", "MutateHelper::apply_subtree_result", "MutateHelper::rebuild_partial_leaf_child", "MutateHelper::merge_grandchild"]},
               {"unit": "search", "functions": ["BranchAccessor::child_for_key", "LeafAccessor::position"]},
-              {"unit": "rootupd", "functions": ["MutateHelper::finish_deletion", "MutateHelper::delete_key"]}],
+              {"unit": "rootupd", "functions": ["MutateHelper::finish_deletion", "MutateHelper::delete_key"]},
+              {"unit": "bigpair", "functions": ["MutateHelper::insert_beside_large_value"]}],
     "kani": [K["C10-F1"], K["C10-F2"], K["C10-F3"], K["C10-F4"], K["C10-F6a"], alias("C11-R3", "C10-F6b"), alias("C06-K2", "C10-F6c"),
              alias("C07-K1s", "C10-F6d"), alias("C04-L1f", "C10-P1f"), alias("C04-L1v", "C10-P1v")],
     "assumptions": ["K1 (cow unit): a branch page is the sequence of its (child page, checksum) pointers; BranchBuilder::build allocates a fresh page of this transaction holding exactly the pointers pushed (built_children, a function of the page number); get_page_mut records what is written through the handle against the page; the separator keys are not modelled"],
-    "explanation": "(V) checksum discipline of the mutator, verified on the REAL MutateHelper::replace_branch_child and finalize_branch_builder: a redirected child pointer always carries the DEFERRED checksum (recomputed at commit) - in place only on a page this transaction allocated, otherwise in a copy that differs from the original in exactly that pointer; a branch reduced to one child hands that child up WITH the checksum it carried, and when that child is merged into the sibling branch (fragment of apply_child_deletion_result) it is carried over with that same checksum on the correct side; an under-full branch is handed up unbuilt with children, checksums and keys untouched. Kernel = format conformance: every fixed-size encoder (page number, tree header, commit slot, database header, freed-page key, allocator-state key, savepoint record, page list) writes exactly the byte layout of docs/design.md (offsets are literals transcribed from the document, not the code's constants) - complete, loop-free; leaf pages: offsets tables, entries and the checksummed prefix - bounded.",
+    "explanation": "(V) checksum discipline of the mutator, verified on the REAL MutateHelper::replace_branch_child and finalize_branch_builder: a redirected child pointer always carries the DEFERRED checksum (recomputed at commit) - in place only on a page this transaction allocated, otherwise in a copy that differs from the original in exactly that pointer; a branch reduced to one child hands that child up WITH the checksum it carried, and when that child is merged into the sibling branch (fragment of apply_child_deletion_result) it is carried over with that same checksum on the correct side; an under-full branch is handed up unbuilt with children, checksums and keys untouched. (S) separator bounds on the REAL fast path of insert_helper for a leaf holding one huge pair: the two leaves are handed up in key order, the untouched one with its old checksum and the new one DEFERRED, and left <= separator < right (given branch_separator's contract, proved for the built-in key types in unit types_sep). Kernel = format conformance: every fixed-size encoder (page number, tree header, commit slot, database header, freed-page key, allocator-state key, savepoint record, page list) writes exactly the byte layout of docs/design.md (offsets are literals transcribed from the document, not the code's constants) - complete, loop-free; leaf pages: offsets tables, entries and the checksummed prefix - bounded.",
     "not_decided": "strictly increasing keys, separator bounds, equal depth, stored counts, no page referenced twice (invariants of btree_mutator.rs over histories); branch pages (probed: too expensive for CBMC); XXH3-128 being XXH3-128",
     "assumptions": ["docs/design.md lists '40 bytes: padding' before the transaction id of a commit slot; the fields then sum to 136 bytes, not 128. The oracle uses 32 bytes of padding (transaction id at 104, checksum at 112), the only reading consistent with the stated slot size; the document, not the code, is off by 8."],
 }
@@ -277,7 +281,8 @@ P["C04"] = {
                                                "Direction::entry_in_range_core"]},
               {"unit": "guardmut", "functions": ["AccessGuardMut::rebuild_leaf"]},
               {"unit": "rootupd", "functions": ["MutateHelper::finish_deletion", "MutateHelper::delete_key", "DeletedPairs::len", "BtreeHeader::new"]},
-              {"unit": "rootins", "functions": ["MutateHelperI::insert"]}],
+              {"unit": "rootins", "functions": ["MutateHelperI::insert"]},
+              {"unit": "bigpair", "functions": ["MutateHelper::insert_beside_large_value"]}],
     "kani": [K["C04-T1"], K["C04-L1f"], K["C04-L1v"], K["C04-L2"]],
     "assumptions": ["D1 (rootupd unit): the recursive descent (delete_helper) is an uninterpreted function of the root page and the key; a page built in this transaction is a function of its page number; push_all_except_deleted pushes the pairs of the leaf without the deleted ones; the helper's root / allocator references are held by value (rule RX drops the `*` of `*self.root`)", "G1 (guardmut unit): a leaf page is the sequence of pairs it holds (LeafAccessor reads it, LeafBuilder::build allocates a page holding exactly the pairs pushed), a branch page the log of child pointers written into it; the guard's root reference is held by value", "S1 (search unit): K::compare is a function of the two byte strings and a total order (reflexive, antisymmetric, transitive) - that it is the value order of each built-in key type is property C15; the n-th key / child of a page is an uninterpreted function of the page (key_unchecked, key, child_page are assumed to return it; the byte layout is checked by the bounded Kani harnesses C04-L1/L2); the keys of a page are strictly increasing (precondition `sorted`, property C10)"],
     "explanation": "Kernel = every lookup, insert and range scan reaches its entry through two binary searches, verified on their REAL loops for every page size and every total order: LeafAccessor::position reports a match only at an entry whose key equals the query and otherwise returns the insertion point (all keys before it smaller, all keys from it on larger), find_key finds a key exactly when the page holds it; BranchAccessor::child_for_key picks the child whose key interval contains the query (all separators before it smaller than the query, the separator at it greater or equal); the REAL bound test of the mutable range cursor (entry_in_range) yields an entry only while its key is on the inner side of the bound parked by the other end (Included / Excluded / Unbounded, both directions). (I) the REAL MutateHelper::insert: a new key raises the stored entry count by exactly one, an overwrite leaves it unchanged and reports the previous value; the first insert into an empty tree builds a one-pair leaf with count 1; when the root page split the new root is a fresh branch over exactly the two halves and their separator; (D) the REAL MutateHelper::delete_key / finish_deletion: removing from an empty tree or a key that is absent leaves the root - and its checksum - untouched; removing a present key stores a root whose entry count is exactly one lower, naming the page the descent produced (DEFERRED checksum) or the untouched remaining child (its retained checksum), and no root at all when the tree was emptied; (G) the REAL page-rebuild path of AccessGuardMut::insert (get_mut / entry API, new value does not fit): the rebuilt leaf holds the old pairs with exactly this entry's value replaced, the pointer redirected to it is the parent's pointer at the position recorded for the parent (or the tree root), with a deferred checksum, and the old leaf is released. Plus the leaf page as a sorted array (bounded model checking of the real writer, reader and binary search against the sequence of pairs handed to the builder) and the complete split/merge threshold arithmetic.",
